@@ -17,20 +17,22 @@
 /// - matrix![ a, b, c; d, e, f; g, h, i ]
 #[macro_export]
 macro_rules! matrix {
-    // Semicolon-separated rows form: matrix![ a, b; c, d ]
-    ( $( $( $x:expr ),+ ) ;+ $(;)? ) => {{
-        let rows_vec = vec![ $( vec![ $( $x ),+ ] ),+ ];
-        let n = rows_vec.len();
-        assert!(rows_vec.iter().all(|r| r.len() == n), "matrix! requires a square n x n list of rows");
-        let mut data = Vec::with_capacity(n*n);
-        for r in rows_vec.into_iter() { data.extend(r.into_iter()); }
-        $crate::matrix::Matrix::from_vec(n, n, data)
-    }};
+    // Bracketed rows form: matrix![ [a, b], [c, d] ]. It must come first: `[a, b]` is also an
+    // expression, so the semicolon form below would otherwise swallow it as a single row.
     ( $( [ $( $x:expr ),* $(,)? ] ),+ $(,)? ) => {{
         // Collect rows into a Vec<Vec<_>> first
         let rows_vec = vec![ $( vec![ $( $x ),* ] ),+ ];
         let n = rows_vec.len();
         // Ensure square
+        assert!(rows_vec.iter().all(|r| r.len() == n), "matrix! requires a square n x n list of rows");
+        let mut data = Vec::with_capacity(n*n);
+        for r in rows_vec.into_iter() { data.extend(r.into_iter()); }
+        $crate::matrix::Matrix::from_vec(n, n, data)
+    }};
+    // Semicolon-separated rows form: matrix![ a, b; c, d ]
+    ( $( $( $x:expr ),+ ) ;+ $(;)? ) => {{
+        let rows_vec = vec![ $( vec![ $( $x ),+ ] ),+ ];
+        let n = rows_vec.len();
         assert!(rows_vec.iter().all(|r| r.len() == n), "matrix! requires a square n x n list of rows");
         let mut data = Vec::with_capacity(n*n);
         for r in rows_vec.into_iter() { data.extend(r.into_iter()); }
